@@ -83,6 +83,7 @@ class Mod:
             if not os.environ.get("LXS_NO_INLINE"):
                 names.canon_counters(self.tree)
                 names.split_tuple_assign(self.tree)
+                names.split_return_ifexp(self.tree)
                 self.inlined = names.inline_new_helpers(self.tree, rel)
                 if self.inlined:
                     _nm.canon_consts(self.tree)
